@@ -203,7 +203,11 @@ def replay(rf, path):
     work.prepare()
     tools = build_tools(work)
     binary, specdir, stats = prepare_batch(work, tools, rf["batch_seed"], rf["n_designs"], cfg["race"], cfg.get("focus", ""))
-    o = orch.run_tape(work, binary, prop, rf.get("tier", "quick"), {"seed": rf["seed"], "tape": rf["tape"]}, "replay", rf.get("args"), env_extra={"VERIF_SPEC_DIR": specdir, "VERIF_GEN_DIR": work.path("gen")})
+    envx = {"VERIF_SPEC_DIR": specdir, "VERIF_GEN_DIR": work.path("gen")}
+    if rf.get("history_seeds"):
+        o = orch.run_seeds(work, binary, prop, rf.get("tier", "quick"), rf["history_seeds"], "replay", rf.get("args"), env_extra=envx)
+    else:
+        o = orch.run_tape(work, binary, prop, rf.get("tier", "quick"), {"seed": rf["seed"], "tape": rf["tape"]}, "replay", rf.get("args"), env_extra=envx)
     if o is None:
         raise Trouble("replay run failed")
     print(json.dumps({k: o.get(k) for k in ("digest", "diverged", "violations")}, indent=1)[:6000])
